@@ -600,19 +600,43 @@ def syn1(ctx):
 LISTS = ("input", "output", "context", "except")
 
 
+_LIST_ALIAS = {}     # HirId of a helper parameter -> the list of `self` it was given (`let items = &self.input`)
+
+
 def _self_fields(node):
     out = set()
     for n in hirq.walk(node):
         if n["e"] == "field" and n["name"] in LISTS and hirq.strip(n["a"]).get("local") == "self":
             out.add(n["name"])
+        if n["e"] == "path" and n.get("hid") in _LIST_ALIAS:
+            out.add(_LIST_ALIAS[n["hid"]])
     return out
+
+
+def _list_of(base):
+    """which of self's four lists an indexed expression is (directly, or through a helper parameter bound to it)"""
+    base = hirq.strip(base)
+    while isinstance(base, dict) and base.get("e") == "unary" and base.get("op") == "Deref":
+        base = hirq.strip(base["a"])
+    if base.get("e") == "field" and base["name"] in LISTS and hirq.strip(base["a"]).get("local") == "self":
+        return base["name"]
+    if base.get("e") == "path" and base.get("hid") in _LIST_ALIAS:
+        return _LIST_ALIAS[base["hid"]]
+    return None
 
 
 def shr1(ctx):
     r = RuleResult("SHR-1", "condensed rules: each of the four lists is broadcast by its own length test (singleton shared, else element i)", floor=8)
     lib = ctx.lib
     b = ctx.fn(lib, "asca::rule::Rule::split_into_subrules")
-    root = b.hir["body"]
+    # a helper that picks "the only element, else the i-th" is looked through: its parameter stands for the list it is given
+    root = hirq.inline_helpers(lib, b, prefixes=("asca::rule::",), max_depth=2)
+    _LIST_ALIAS.clear()
+    for n in hirq.walk(root):
+        if n["e"] == "let" and n.get("inl_param") and (n.get("pat") or {}).get("p") == "bind" and n.get("init") is not None:
+            f0 = hirq.strip(n["init"])
+            if f0.get("e") == "field" and f0["name"] in LISTS and hirq.strip(f0["a"]).get("local") == "self":
+                _LIST_ALIAS[n["pat"]["hid"]] = f0["name"]
     # let-bound index variables whose value is chosen by a length test
     idx_cond = {}
     for n in hirq.walk(root):
@@ -636,13 +660,13 @@ def shr1(ctx):
                 return
             acc = None
             if node.get("e") == "index":
-                base = hirq.strip(node["a"])
-                if base.get("e") == "field" and base["name"] in LISTS and hirq.strip(base["a"]).get("local") == "self":
-                    acc = (base["name"], node["i"], node["ln"])
+                fld0 = _list_of(node["a"])
+                if fld0:
+                    acc = (fld0, node["i"], node["ln"])
             if node.get("e") == "mcall" and node["name"] in ("get", "get_mut"):
-                base = hirq.strip(node["recv"])
-                if base.get("e") == "field" and base["name"] in LISTS and hirq.strip(base["a"]).get("local") == "self" and node["args"]:
-                    acc = (base["name"], node["args"][0], node["ln"])
+                fld0 = _list_of(node["recv"])
+                if fld0 and node["args"]:
+                    acc = (fld0, node["args"][0], node["ln"])
             if acc:
                 fld, idx, ln = acc
                 i0 = hirq.strip(idx)
